@@ -10,7 +10,9 @@ structure Inv (s : State) : Prop where
   layout : LayoutOK s.kinds s.counts (s.acct.base + DISC) (s.acct.base + s.acct.len)
   bLt : s.acct.borrow < 256
   /-- data nibble of the borrow byte = mutable flag (bit 3, set = free) + shared borrows still available -/
-  bState : s.acct.borrow % 16 = (if s.excl.isSome then 0 else 8) + (7 - s.shared.length)
+  bFree : s.excl = none → s.acct.borrow % 16 = 15 - s.shared.length
+  /-- while the exclusive borrow is live: flag bit clear, all 7 shared borrows available -/
+  bBusy : s.excl.isSome = true → s.acct.borrow % 16 = 7
   shLe : s.shared.length ≤ 7
   exclShared : s.excl.isSome → s.shared = []
   /-- a live wrapper holds the allocation range, the current length and the canonical pointers -/
@@ -59,8 +61,8 @@ theorem accountDataMut_idle {s : State} (h : Inv s) (hw : s.acct.writable = true
     (hs : s.shared = []) :
     accountDataMut s = (afterBorrowMut s,
       .borrowedMut s.next s.acct.len s.acct.delta (s.acct.borrow - 8) 0 ((s.acct.orig + MAX_INC : Nat) : Int) s.counts) := by
-  have hb := h.bState
-  simp only [he, hs, Option.isSome_none, List.length_nil] at hb
+  have hb := h.bFree he
+  simp only [hs, List.length_nil] at hb
   unfold accountDataMut
   rw [if_neg (by simp [hw]), validateInfo_ok h (by omega)]
   simp only []
@@ -76,13 +78,14 @@ theorem accountDataMut_busy {s : State} (h : Inv s)
   unfold accountDataMut
   by_cases hw : s.acct.writable = true
   · have hne : s.acct.borrow % 16 ≠ 15 := by
-      have hb := h.bState
       have hsl := h.shLe
       rcases hbusy with hb' | hb' | hb'
       · simp [hw] at hb'
-      · simp only [hb', if_true] at hb; omega
+      · have := h.bBusy hb'; omega
       · have : 0 < s.shared.length := List.length_pos_iff.mpr hb'
-        split at hb <;> omega
+        cases hx : s.excl with
+        | none => have := h.bFree hx; omega
+        | some w => have := h.bBusy (by simp [hx]); omega
     rw [if_neg (by simp [hw])]
     by_cases hc : 9 ≤ s.acct.borrow % 16
     · rw [validateInfo_ok h hc]
@@ -98,27 +101,27 @@ def afterBorrow (s : State) : State :=
 
 theorem accountData_free {s : State} (h : Inv s) (he : s.excl = none) (hs : s.shared.length < 7) :
     accountData s = (afterBorrow s, .borrowed s.next s.acct.len s.acct.delta (s.acct.borrow - 1) s.counts) := by
-  have hb := h.bState
-  simp only [he, Option.isSome_none] at hb
+  have hb := h.bFree he
   have hv : (if s.acct.writable then validateInfo s.acct else .ok ()) = .ok () := by
     split
-    · exact validateInfo_ok h (by simp at hb; omega)
+    · exact validateInfo_ok h (by omega)
     · rfl
   unfold accountData
   rw [hv]
   simp only []
-  have hc : canBorrowData s.acct.borrow = true := (canBorrowData_iff h.bLt).mpr (by simp at hb; omega)
+  have hc : canBorrowData s.acct.borrow = true := (canBorrowData_iff h.bLt).mpr (by omega)
   simp only [tryBorrowData, hc, if_true]
   have := topGetPtr_ok h
   simp only [this, afterBorrow]
 
 theorem accountData_busy {s : State} (h : Inv s) (hbusy : s.excl.isSome = true ∨ s.shared.length = 7) :
     accountData s = (s, .err .accountBorrowFailed) := by
-  have hb := h.bState
   have hc : ¬ 9 ≤ s.acct.borrow % 16 := by
     rcases hbusy with hb' | hb'
-    · simp only [hb', if_true] at hb; omega
-    · split at hb <;> omega
+    · have := h.bBusy hb'; omega
+    · cases hx : s.excl with
+      | none => have := h.bFree hx; omega
+      | some w => have := h.bBusy (by simp [hx]); omega
   have hcb : ¬ canBorrowData s.acct.borrow = true := fun x => hc ((canBorrowData_iff h.bLt).mp x)
   unfold accountData
   by_cases hw : s.acct.writable = true
@@ -137,8 +140,7 @@ def afterReleaseShared (s : State) (k : Nat) : State :=
 
 theorem release_excl {s : State} (h : Inv s) {w : Wrapper} (he : s.excl = some w) (hk : w.h = k) :
     release s k = (afterReleaseExcl s, .released (s.acct.borrow + 8)) := by
-  have hb := h.bState
-  simp only [he, Option.isSome_some, if_true] at hb
+  have hb := h.bBusy (by simp [he])
   have hor : s.acct.borrow ||| 8 = s.acct.borrow + 8 := by
     rw [lor8_eq _ h.bLt, if_pos (by omega)]
   unfold release
@@ -160,13 +162,14 @@ theorem release_dead {s : State} (hm : k ∉ s.shared) (he : ∀ w, s.excl = som
 
 theorem inv_afterBorrowMut {s : State} (h : Inv s) (he : s.excl = none) (hs : s.shared = []) :
     Inv (afterBorrowMut s) := by
-  have hb := h.bState
-  simp only [he, hs, Option.isSome_none, List.length_nil] at hb
+  have hb := h.bFree he
+  simp only [hs, List.length_nil] at hb
   have hlt := h.bLt
-  refine ⟨⟨h.acct.delta, h.acct.cap, h.acct.small, h.acct.baseOk⟩, h.layout, ?_, ?_, ?_, ?_, ?_⟩
+  refine ⟨⟨h.acct.delta, h.acct.cap, h.acct.small, h.acct.baseOk⟩, h.layout, ?_, ?_, ?_, ?_, ?_, ?_⟩
   · show s.acct.borrow - 8 < 256; omega
-  · show (s.acct.borrow - 8) % 16 = _
-    simp only [afterBorrowMut, Option.isSome_some, if_true, hs, List.length_nil]
+  · intro hx; simp [afterBorrowMut] at hx
+  · intro _
+    show (s.acct.borrow - 8) % 16 = 7
     omega
   · simp [afterBorrowMut, hs]
   · intro _; simp [afterBorrowMut, hs]
@@ -177,50 +180,418 @@ theorem inv_afterBorrowMut {s : State} (h : Inv s) (he : s.excl = none) (hs : s.
 
 theorem inv_afterBorrow {s : State} (h : Inv s) (he : s.excl = none) (hs : s.shared.length < 7) :
     Inv (afterBorrow s) := by
-  have hb := h.bState
-  simp only [he, Option.isSome_none] at hb
+  have hb := h.bFree he
   have hlt := h.bLt
-  refine ⟨⟨h.acct.delta, h.acct.cap, h.acct.small, h.acct.baseOk⟩, h.layout, ?_, ?_, ?_, ?_, ?_⟩
+  refine ⟨⟨h.acct.delta, h.acct.cap, h.acct.small, h.acct.baseOk⟩, h.layout, ?_, ?_, ?_, ?_, ?_, ?_⟩
   · show s.acct.borrow - 1 < 256; omega
-  · show (s.acct.borrow - 1) % 16 = _
-    simp only [afterBorrow, he, Option.isSome_none, List.length_cons]
-    simp at hb
+  · intro _
+    show (s.acct.borrow - 1) % 16 = 15 - (s.next :: s.shared).length
+    simp only [List.length_cons]
     omega
+  · intro hx; simp [afterBorrow, he] at hx
   · simp only [afterBorrow, List.length_cons]; omega
   · intro hx; simp [afterBorrow, he] at hx
   · intro w hw; simp [afterBorrow, he] at hw
 
 theorem inv_afterReleaseExcl {s : State} (h : Inv s) (he : s.excl.isSome = true) : Inv (afterReleaseExcl s) := by
-  have hb := h.bState
+  have hb := h.bBusy he
   have hsh := h.exclShared he
-  simp only [he, if_true, hsh, List.length_nil] at hb
   have hlt := h.bLt
-  refine ⟨⟨h.acct.delta, h.acct.cap, h.acct.small, h.acct.baseOk⟩, h.layout, ?_, ?_, ?_, ?_, ?_⟩
+  refine ⟨⟨h.acct.delta, h.acct.cap, h.acct.small, h.acct.baseOk⟩, h.layout, ?_, ?_, ?_, ?_, ?_, ?_⟩
   · show s.acct.borrow + 8 < 256; omega
-  · show (s.acct.borrow + 8) % 16 = _
-    simp only [afterReleaseExcl, Option.isSome_none, hsh, List.length_nil]
+  · intro _
+    show (s.acct.borrow + 8) % 16 = 15 - s.shared.length
+    rw [hsh]; simp only [List.length_nil]
     omega
+  · intro hx; simp [afterReleaseExcl] at hx
   · exact h.shLe
   · intro hx; simp [afterReleaseExcl] at hx
   · intro w hw; simp [afterReleaseExcl] at hw
 
 theorem inv_afterReleaseShared {s : State} (h : Inv s) (he : s.excl = none) (hm : k ∈ s.shared) :
     Inv (afterReleaseShared s k) := by
-  have hb := h.bState
-  simp only [he, Option.isSome_none] at hb
+  have hb := h.bFree he
   have hlt := h.bLt
   have hsl := h.shLe
   have hlen : (s.shared.erase k).length = s.shared.length - 1 := List.length_erase_of_mem hm
   have hpos : 0 < s.shared.length := List.length_pos_of_mem hm
-  refine ⟨⟨h.acct.delta, h.acct.cap, h.acct.small, h.acct.baseOk⟩, h.layout, ?_, ?_, ?_, ?_, ?_⟩
+  refine ⟨⟨h.acct.delta, h.acct.cap, h.acct.small, h.acct.baseOk⟩, h.layout, ?_, ?_, ?_, ?_, ?_, ?_⟩
   · show s.acct.borrow + 1 < 256
-    simp at hb; omega
-  · show (s.acct.borrow + 1) % 16 = _
-    simp only [afterReleaseShared, he, Option.isSome_none, hlen]
-    simp at hb
     omega
+  · intro _
+    show (s.acct.borrow + 1) % 16 = 15 - (s.shared.erase k).length
+    rw [hlen]
+    omega
+  · intro hx; simp [afterReleaseShared, he] at hx
   · simp only [afterReleaseShared, hlen]; omega
   · intro hx; simp [afterReleaseShared, he] at hx
   · intro w hw; simp [afterReleaseShared, he] at hw
+
+
+/-! ## grow / shrink through the live exclusive borrow -/
+
+theorem Kind.width_add {k : Kind} (hns : k.isSized = false) (c n : Nat) :
+    k.width (c + n) = k.width c + k.unit * n := by
+  cases k <;> simp [Kind.isSized] at hns <;> simp [Kind.width, Kind.unit] <;> omega
+
+theorem Kind.unit_pos {k : Kind} (hns : k.isSized = false) : 0 < k.unit := by
+  cases k <;> simp [Kind.isSized] at hns <;> simp [Kind.unit]
+
+theorem set_same : ∀ {cs : List Nat} {f c : Nat}, cs[f]? = some c → cs.set f c = cs
+  | [], _, _, h => by simp at h
+  | _ :: _, 0, _, h => by simp at h; simp [List.set, h]
+  | _ :: cs, f + 1, c, h => by
+    simp only [List.getElem?_cons_succ] at h
+    simp [List.set, set_same h]
+
+/-- The state after a resize of field `f` to `c'` elements with new data length `newLen`. -/
+def afterResize (s : State) (w : Wrapper) (f c' newLen : Nat) : State :=
+  { s with acct := { s.acct with len := newLen, delta := (newLen : Int) - (s.acct.orig : Int) },
+           excl := some { w with dlen := newLen, ptrs := ptrsFrom (s.acct.base + DISC) s.kinds (s.counts.set f c') },
+           counts := s.counts.set f c' }
+
+theorem afterResize_id {s : State} (h : Inv s) {w : Wrapper} (he : s.excl = some w) {f c : Nat}
+    (hc : s.counts[f]? = some c) : afterResize s w f c s.acct.len = s := by
+  obtain ⟨_, _, h3, h4⟩ := h.wrap w he
+  have hd := h.acct.delta
+  cases s with
+  | mk acct kinds counts excl shared next =>
+    cases acct with
+    | mk orig len delta borrow base writable =>
+      cases w with
+      | mk wh wptrs wlo whi wdlen =>
+        simp only at he h3 h4 hd hc
+        subst he h3 h4 hd
+        simp only [afterResize, set_same hc]
+
+theorem inv_afterResize {s : State} (h : Inv s) {w : Wrapper} (he : s.excl = some w) {f c' newLen : Nat}
+    (hl : LayoutOK s.kinds (s.counts.set f c') (s.acct.base + DISC) (s.acct.base + newLen))
+    (hfit : newLen ≤ s.acct.orig + MAX_INC) : Inv (afterResize s w f c' newLen) := by
+  obtain ⟨h1, h2, _, _⟩ := h.wrap w he
+  refine ⟨⟨rfl, hfit, h.acct.small, h.acct.baseOk⟩, hl, h.bLt, ?_, ?_, h.shLe, ?_, ?_⟩
+  · intro hx; simp [afterResize] at hx
+  · intro _; exact h.bBusy (by simp [he])
+  · intro _; exact h.exclShared (by simp [he])
+  · intro w' hw'
+    simp only [afterResize, Option.some.injEq] at hw'
+    subst hw'
+    exact ⟨h1, h2, rfl, rfl⟩
+
+theorem state_eta {s : State} {w : Wrapper} (he : s.excl = some w) :
+    ({ s with acct := s.acct, excl := some w } : State) = s := by
+  cases s with
+  | mk acct kinds counts excl shared next =>
+    simp only at he
+    subst he
+    rfl
+
+/-- A growth that stays within the allowance succeeds and yields the grown state. -/
+theorem grow_fits {s : State} (h : Inv s) {w : Wrapper} (he : s.excl = some w) {f n : Nat} {k : Kind} {c : Nat}
+    (hk : s.kinds[f]? = some k) (hc : s.counts[f]? = some c) (hns : k.isSized = false) (hn : n ≤ N_CAP)
+    (hfit : s.acct.len + k.unit * n ≤ s.acct.orig + MAX_INC) :
+    grow s f n = (afterResize s w f (c + n) (s.acct.len + k.unit * n),
+      .resized (s.acct.len + k.unit * n) (((s.acct.len + k.unit * n : Nat) : Int) - (s.acct.orig : Int))
+        (s.counts.set f (c + n))) ∧
+    Inv (afterResize s w f (c + n) (s.acct.len + k.unit * n)) := by
+  obtain ⟨h1, h2, h3, h4⟩ := h.wrap w he
+  obtain ⟨p, hp⟩ := ptrsFrom_getElem?_isSome (off := s.acct.base + DISC) hk hc
+  have hp' : w.ptrs[f]? = some p := by rw [h4]; exact hp
+  obtain ⟨hn1, hn2, hn3, hn4⟩ := notifyUp_ptrsFrom (c' := c + n) (amt := k.unit * n) h.layout hk hc hp
+    (Kind.width_add hns c n)
+  have hinv : Inv (afterResize s w f (c + n) (s.acct.len + k.unit * n)) :=
+    inv_afterResize h he (by rw [← Nat.add_assoc]; exact hn2) hfit
+  refine ⟨?_, hinv⟩
+  have hup := Kind.unit_pos hns
+  by_cases hn0 : n = 0
+  · -- nothing changes
+    subst hn0
+    have hid : afterResize s w f (c + 0) (s.acct.len + k.unit * 0) = s := by
+      simpa using afterResize_id h he hc
+    have hdl := h.acct.delta
+    simp only [Nat.mul_zero, Nat.add_zero] at hid ⊢
+    rw [hid, ← hdl, set_same hc]
+    unfold grow
+    simp only [he, hk, hc, hp']
+    rw [if_neg (by simp [hns])]
+    by_cases hr : k = .remaining
+    · rw [if_pos (by simp [hr])]
+    · rw [if_neg (by simp [hr])]
+      simp only [addBytes, h.check he, not_true_eq_false, if_false, Nat.mul_zero, if_true]
+      rw [if_neg (by omega), if_neg (by omega)]
+      simp only [Nat.add_zero, setCount, set_same hc, state_eta he, ← hdl]
+  · unfold grow
+    simp only [he, hk, hc, hp']
+    rw [if_neg (by simp [hns]; omega), if_neg (by simp [hn0])]
+    have hamt : k.unit * n ≠ 0 := by
+      have : 0 < k.unit * n := Nat.mul_pos hup (by omega)
+      omega
+    obtain ⟨fill, hrs⟩ := resize_ok h.acct (n := w.dlen + k.unit * n) (by omega) (by omega)
+    simp only [addBytes, h.check he, not_true_eq_false, if_false]
+    rw [if_neg (by omega), if_neg (by omega), if_neg hamt, hrs]
+    simp only [h4, hn1, afterResize, h3, setCount]
+
+/-- A growth past the allowance is an `InvalidRealloc` error at that very operation and changes nothing. -/
+theorem grow_over {s : State} (h : Inv s) {w : Wrapper} (he : s.excl = some w) {f n : Nat} {k : Kind} {c : Nat}
+    (hk : s.kinds[f]? = some k) (hc : s.counts[f]? = some c) (hns : k.isSized = false) (hn : n ≤ N_CAP)
+    (hover : s.acct.orig + MAX_INC < s.acct.len + k.unit * n) :
+    grow s f n = (s, .err .invalidRealloc) := by
+  obtain ⟨h1, h2, h3, h4⟩ := h.wrap w he
+  obtain ⟨p, hp⟩ := ptrsFrom_getElem?_isSome (off := s.acct.base + DISC) hk hc
+  have hp' : w.ptrs[f]? = some p := by rw [h4]; exact hp
+  obtain ⟨_, _, hn3, hn4⟩ := notifyUp_ptrsFrom (c' := c + n) (amt := k.unit * n) h.layout hk hc hp
+    (Kind.width_add hns c n)
+  have hcap := h.acct.cap
+  have hamt : k.unit * n ≠ 0 := by omega
+  have hn0 : n ≠ 0 := by intro h0; subst h0; simp at hamt
+  unfold grow
+  simp only [he, hk, hc, hp']
+  rw [if_neg (by simp [hns]; omega), if_neg (by simp [hn0])]
+  simp only [addBytes, h.check he, not_true_eq_false, if_false]
+  rw [if_neg (by omega), if_neg (by omega), if_neg hamt, resize_over h.acct (by omega)]
+  simp only [state_eta he]
+
+
+theorem Kind.width_sub {k : Kind} (hns : k.isSized = false) {c n : Nat} (hnc : n ≤ c) :
+    k.width c = k.width (c - n) + k.unit * n := by
+  cases k <;> simp [Kind.isSized] at hns <;> simp [Kind.width, Kind.unit] <;> omega
+
+theorem Kind.width_pos {k : Kind} (hns : k.isSized = false) (hr : k ≠ .remaining) (c : Nat) : 0 < k.width c := by
+  cases k <;> simp [Kind.isSized] at hns <;> simp [Kind.width] at * <;> omega
+
+theorem shrinkSpan_spec {k : Kind} (hns : k.isSized = false) {p c n : Nat} (hnc : n ≤ c) :
+    p ≤ (shrinkSpan k p c n).1 ∧ (shrinkSpan k p c n).1 ≤ (shrinkSpan k p c n).2 ∧
+      (shrinkSpan k p c n).2 ≤ p + k.width c ∧ (shrinkSpan k p c n).2 - (shrinkSpan k p c n).1 = k.unit * n := by
+  cases k with
+  | sized w => simp [Kind.isSized] at hns
+  | list => simp [shrinkSpan, Kind.width, Kind.unit]; omega
+  | remaining => simp [shrinkSpan, Kind.width, Kind.unit]; omega
+  | ulist =>
+    simp only [shrinkSpan, Kind.width, Kind.unit]
+    by_cases hx : n = c
+    · simp only [hx, if_true]; omega
+    · simp only [hx, if_false]; omega
+
+/-- Shrinking always succeeds (by any amount, in particular by more than the growth allowance). -/
+theorem shrink_ok {s : State} (h : Inv s) {w : Wrapper} (he : s.excl = some w) {f n : Nat} {k : Kind} {c : Nat}
+    (hk : s.kinds[f]? = some k) (hc : s.counts[f]? = some c) (hns : k.isSized = false) (hn : n ≤ N_CAP)
+    (hnc : n ≤ c) :
+    shrink s f n = (afterResize s w f (c - n) (s.acct.len - k.unit * n),
+      .resized (s.acct.len - k.unit * n) (((s.acct.len - k.unit * n : Nat) : Int) - (s.acct.orig : Int))
+        (s.counts.set f (c - n))) ∧
+    Inv (afterResize s w f (c - n) (s.acct.len - k.unit * n)) ∧ k.unit * n ≤ s.acct.len := by
+  obtain ⟨h1, h2, h3, h4⟩ := h.wrap w he
+  obtain ⟨p, hp⟩ := ptrsFrom_getElem?_isSome (off := s.acct.base + DISC) hk hc
+  have hp' : w.ptrs[f]? = some p := by rw [h4]; exact hp
+  have hws := Kind.width_sub hns hnc
+  obtain ⟨hn1, hn2, hn3, hn4⟩ := notifyDown_ptrsFrom (c' := c - n) (amt := k.unit * n) h.layout hk hc hp
+    hws (fun hr => Kind.width_pos hns hr _)
+  obtain ⟨sp1, sp2, sp3, sp4⟩ := shrinkSpan_spec hns (p := p.addr) hnc
+  have hcap := h.acct.cap
+  have hle : k.unit * n ≤ s.acct.len := by omega
+  have hinv : Inv (afterResize s w f (c - n) (s.acct.len - k.unit * n)) :=
+    inv_afterResize h he (by
+      have e : s.acct.base + (s.acct.len - k.unit * n) = s.acct.base + s.acct.len - k.unit * n := by omega
+      rw [e]; exact hn2) (by omega)
+  refine ⟨?_, hinv, hle⟩
+  have hup := Kind.unit_pos hns
+  by_cases hn0 : n = 0
+  · subst hn0
+    have hid : afterResize s w f (c - 0) (s.acct.len - k.unit * 0) = s := by
+      simpa using afterResize_id h he hc
+    have hdl := h.acct.delta
+    simp only [Nat.mul_zero, Nat.sub_zero] at hid sp4 ⊢
+    rw [hid, ← hdl, set_same hc]
+    unfold shrink
+    simp only [he, hk, hc, hp']
+    rw [if_neg (by simp [hns])]
+    by_cases hr : k = .remaining
+    · rw [if_pos (by simp [hr])]
+    · rw [if_neg (by simp [hr])]
+      simp only [removeBytes, h.check he, not_true_eq_false, if_false]
+      rw [if_neg (by omega), if_neg (by omega), if_neg (by omega), if_neg (by omega), if_pos sp4]
+      simp only [Nat.sub_zero, setCount, set_same hc, state_eta he, ← hdl]
+  · unfold shrink
+    simp only [he, hk, hc, hp']
+    rw [if_neg (by simp [hns]; omega), if_neg (by simp [hn0])]
+    have hamt : k.unit * n ≠ 0 := by
+      have : 0 < k.unit * n := Nat.mul_pos hup (by omega)
+      omega
+    obtain ⟨fill, hrs⟩ := resize_ok h.acct (n := w.dlen - k.unit * n) (by omega) (by omega)
+    simp only [removeBytes, h.check he, not_true_eq_false, if_false]
+    rw [if_neg (by omega), if_neg (by omega), if_neg (by omega), if_neg (by omega), if_neg (by omega), sp4, hrs]
+    simp only [h4, hn1, afterResize, h3, setCount]
+
+/-! ## grow / shrink: inapplicable lines -/
+
+theorem grow_bad {s : State} (hbad : s.excl = none ∨ s.kinds[f]? = none ∨ (∃ k, s.kinds[f]? = some k ∧ k.isSized = true) ∨
+    N_CAP < n) : grow s f n = (s, .badOp) := by
+  unfold grow
+  cases he : s.excl with
+  | none => rfl
+  | some w =>
+    simp only []
+    cases hk : s.kinds[f]? with
+    | none => simp
+    | some k =>
+      cases hc : s.counts[f]? with
+      | none => simp
+      | some c =>
+        cases hp : w.ptrs[f]? with
+        | none => simp
+        | some p =>
+          simp only []
+          rcases hbad with hb | hb | ⟨k', hb, hs⟩ | hb
+          · simp [he] at hb
+          · simp [hk] at hb
+          · rw [hk] at hb; cases hb
+            rw [if_pos (Or.inl hs)]
+          · rw [if_pos (Or.inr hb)]
+
+
+theorem shrink_bad {s : State} (hbad : s.excl = none ∨ s.kinds[f]? = none ∨
+    (∃ k, s.kinds[f]? = some k ∧ k.isSized = true) ∨ N_CAP < n ∨ (∃ c, s.counts[f]? = some c ∧ c < n)) :
+    shrink s f n = (s, .badOp) := by
+  unfold shrink
+  cases he : s.excl with
+  | none => rfl
+  | some w =>
+    simp only []
+    cases hk : s.kinds[f]? with
+    | none => simp
+    | some k =>
+      cases hc : s.counts[f]? with
+      | none => simp
+      | some c =>
+        cases hp : w.ptrs[f]? with
+        | none => simp
+        | some p =>
+          simp only []
+          rcases hbad with hb | hb | ⟨k', hb, hs⟩ | hb | ⟨c', hb, hs⟩
+          · simp [he] at hb
+          · simp [hk] at hb
+          · rw [hk] at hb; cases hb
+            rw [if_pos (Or.inl hs)]
+          · rw [if_pos (Or.inr (Or.inl hb))]
+          · rw [hc] at hb; cases hb
+            rw [if_pos (Or.inr (Or.inr hs))]
+
+theorem Inv.counts_some {s : State} (h : Inv s) {f : Nat} {k : Kind} (hk : s.kinds[f]? = some k) :
+    ∃ c, s.counts[f]? = some c := by
+  have hl := LayoutOK.length_eq h.layout
+  have : f < s.kinds.length := by
+    rcases Nat.lt_or_ge f s.kinds.length with h' | h'
+    · exact h'
+    · rw [List.getElem?_eq_none h'] at hk; cases hk
+  exact ⟨s.counts[f]'(by omega), List.getElem?_eq_getElem (by omega)⟩
+
+/-- Every operation preserves the invariant and never panics. -/
+theorem step_inv {s : State} (h : Inv s) (op : Op) : Inv (step s op).1 ∧ (step s op).2 ≠ .panic := by
+  cases op with
+  | borrowMut =>
+    by_cases hi : s.acct.writable = true ∧ s.excl = none ∧ s.shared = []
+    · obtain ⟨hw, he, hs⟩ := hi
+      simp only [step, accountDataMut_idle h hw he hs]
+      exact ⟨inv_afterBorrowMut h he hs, by simp⟩
+    · have : s.acct.writable = false ∨ s.excl.isSome = true ∨ s.shared ≠ [] := by
+        by_cases hw : s.acct.writable = true
+        · by_cases he : s.excl = none
+          · right; right; intro hs; exact hi ⟨hw, he, hs⟩
+          · right; left; cases hx : s.excl with
+            | none => exact absurd hx he
+            | some w => rfl
+        · left; simpa using hw
+      simp only [step, accountDataMut_busy h this]
+      exact ⟨h, by simp⟩
+  | borrow =>
+    by_cases hi : s.excl = none ∧ s.shared.length < 7
+    · simp only [step, accountData_free h hi.1 hi.2]
+      exact ⟨inv_afterBorrow h hi.1 hi.2, by simp⟩
+    · have : s.excl.isSome = true ∨ s.shared.length = 7 := by
+        cases hx : s.excl with
+        | none => right; have := h.shLe; have : ¬ s.shared.length < 7 := fun x => hi ⟨hx, x⟩; omega
+        | some w => left; rfl
+      simp only [step, accountData_busy h this]
+      exact ⟨h, by simp⟩
+  | release k =>
+    cases hx : s.excl with
+    | some w =>
+      by_cases hk : w.h = k
+      · simp only [step, release_excl h hx hk]
+        exact ⟨inv_afterReleaseExcl h (by simp [hx]), by simp⟩
+      · have hs := h.exclShared (by simp [hx])
+        have : release s k = (s, .badOp) := release_dead (by simp [hs]) (fun w' hw' => by
+          rw [hx] at hw'; cases hw'; exact hk)
+        simp only [step, this]
+        exact ⟨h, by simp⟩
+    | none =>
+      by_cases hm : k ∈ s.shared
+      · simp only [step, release_shared h hx hm]
+        exact ⟨inv_afterReleaseShared h hx hm, by simp⟩
+      · have : release s k = (s, .badOp) := release_dead hm (fun w' hw' => by rw [hx] at hw'; cases hw')
+        simp only [step, this]
+        exact ⟨h, by simp⟩
+  | grow f n =>
+    cases hx : s.excl with
+    | none => simp only [step, grow_bad (Or.inl hx)]; exact ⟨h, by simp⟩
+    | some w =>
+      cases hk : s.kinds[f]? with
+      | none => simp only [step, grow_bad (Or.inr (Or.inl hk))]; exact ⟨h, by simp⟩
+      | some k =>
+        obtain ⟨c, hc⟩ := h.counts_some hk
+        by_cases hs : k.isSized = true
+        · simp only [step, grow_bad (Or.inr (Or.inr (Or.inl ⟨k, hk, hs⟩)))]; exact ⟨h, by simp⟩
+        · have hns : k.isSized = false := by simpa using hs
+          by_cases hn : N_CAP < n
+          · simp only [step, grow_bad (Or.inr (Or.inr (Or.inr hn)))]; exact ⟨h, by simp⟩
+          · by_cases hfit : s.acct.len + k.unit * n ≤ s.acct.orig + MAX_INC
+            · obtain ⟨e, hi⟩ := grow_fits (n := n) h hx hk hc hns (by omega) hfit
+              simp only [step, e]
+              exact ⟨hi, by simp⟩
+            · simp only [step, grow_over (n := n) h hx hk hc hns (by omega) (by omega)]
+              exact ⟨h, by simp⟩
+  | shrink f n =>
+    cases hx : s.excl with
+    | none => simp only [step, shrink_bad (Or.inl hx)]; exact ⟨h, by simp⟩
+    | some w =>
+      cases hk : s.kinds[f]? with
+      | none => simp only [step, shrink_bad (Or.inr (Or.inl hk))]; exact ⟨h, by simp⟩
+      | some k =>
+        obtain ⟨c, hc⟩ := h.counts_some hk
+        by_cases hs : k.isSized = true
+        · simp only [step, shrink_bad (Or.inr (Or.inr (Or.inl ⟨k, hk, hs⟩)))]; exact ⟨h, by simp⟩
+        · have hns : k.isSized = false := by simpa using hs
+          by_cases hn : N_CAP < n
+          · simp only [step, shrink_bad (Or.inr (Or.inr (Or.inr (Or.inl hn))))]; exact ⟨h, by simp⟩
+          · by_cases hnc : c < n
+            · simp only [step, shrink_bad (Or.inr (Or.inr (Or.inr (Or.inr ⟨c, hc, hnc⟩))))]; exact ⟨h, by simp⟩
+            · obtain ⟨e, hi, _⟩ := shrink_ok (n := n) h hx hk hc hns (by omega) (by omega)
+              simp only [step, e]
+              exact ⟨hi, by simp⟩
+  | query => exact ⟨h, by simp [step]⟩
+
+/-- The invariant holds along every history, in every intermediate state. -/
+theorem run_inv : ∀ (ops : List Op) {s : State}, Inv s →
+    Inv (run s ops).1 ∧ ∀ e ∈ (run s ops).2, Inv e.1 ∧ e.2.2 = (step e.1 e.2.1).2
+  | [], s, h => ⟨h, by simp [run]⟩
+  | op :: ops, s, h => by
+    have hs := (step_inv h op).1
+    obtain ⟨ih1, ih2⟩ := run_inv ops hs
+    simp only [run]
+    refine ⟨ih1, ?_⟩
+    intro e he
+    simp only [List.mem_cons] at he
+    rcases he with rfl | he
+    · exact ⟨h, rfl⟩
+    · exact ih2 e he
+
+/-- A fresh, well-formed account satisfies the invariant. -/
+theorem inv_mkState {base : Nat} {wr : Bool} {ks : List Kind} {cs : List Nat} {len : Nat}
+    (hl : LayoutOK ks cs (base + DISC) (base + len)) (hsmall : len + MAX_INC ≤ 2147483647)
+    (hbase : base + len + MAX_INC + MAX_INC ≤ 4611686018427387904) : Inv (mkState base wr ks cs len) := by
+  refine ⟨⟨by simp [mkState], by simp [mkState], hsmall, hbase⟩, hl, by simp [mkState], ?_, ?_, by simp [mkState], ?_, ?_⟩
+  · intro _; simp [mkState]
+  · intro hx; simp [mkState] at hx
+  · intro _; rfl
+  · intro w hw; simp [mkState] at hw
 
 end Unsized.Runtime
